@@ -9,6 +9,8 @@ EPY = ['L{x}', 'L{a.b<c.d>}', 'C{code}', 'B{bold}', 'I{it}', 'U{http://x.y}', 'U
        '@param a: desc', '@type a: C{int}', '@return: r', '@rtype: L{x}', '@raise ValueError: bad', '@ivar v: d', '@cvar c: d', '@note: n', '@see: s',
        '@author: me', '@since: 1', '@keyword k: d', '@unknown z: q', '@param: noarg', '@type: noarg', '@param a b: two', '@', '@:', '@@', '{', '}', '{{', 'L{', 'C{x',
        'x}', 'L{}', 'C{B{I{deep}}}', '  - item', '- item', '1. one', '1.1. sub', ' 2. two', 'Section\n=======', 'Sub\n---', '概要\n====', '???\n===', 'Справка\n-------', '...\n~~~', 'Sec 2\n=====\n\nSub!\n----', '  Indented title\n  ==============',
+       'Summary.\n\n  @param a: x\n\nNotes\n=====\ntext', '  @param a: x\n\nNotes\n=====\ntext', '@return: r\n\nTitle\n=====\n\nmore', '    @see: s\n\n  Sub\n  ---\n  t',
+       '@param a: x\n\n  Deeper\n  ======\n  body', 'Intro\n\n    @note: n\n\nAfter the fields.\n\nHead\n====', '@type a: int\nHead\n====\n',
        '   >>> x = 1\n  dedented', '    >>> a\n    b\n c', '  - item\n >>> x', '>>> a\nnot blank', 'Subsub\n~~~~', '>>> 1+1\n2', '>>> x',
        'lit::\n    block\n  more', '::', 'text::', '    indented', '\tTab', 'p1\n\np2', 'E{', 'E{nope}', 'S{nope}', 'L{a<b}', 'U{<}', 'G{graph x}', '@param *args: x', '@param **kw: y']
 RST = ['*em*', '**strong**', '``lit``', '`ref`', '`text <http://x>`_', '`text <a.b>`', ':py:class:`X`', ':role:`x`', ':unknownrole:`x`', '|sub|', '[1]_', '[#]_', '[*]_', 'name_',
